@@ -52,7 +52,8 @@ inductive Mode where
 inductive Act where
   /-- make the wakeable among `cs` ready (resolve their promises / release their mutexes / push to their
   queues / `detach()` the fresh ones), collecting the handles in one `suspend_point` in the order of `cs`
-  (`rev`: through `coro_queue::create_suspend_point`, which collects in reverse), then discard or await it -/
+  (`rev`: through `coro_queue::create_suspend_point`, which keeps that order since /repo fix 34c6158 — the pinned code
+  collected in reverse, `handlesAsIs`), then discard or await it -/
   | wake (cs : List Nat) (m : Mode) (rev : Bool)
   | park                -- `co_await` an unresolved future (await_suspend returns `true`)
   | parkNext            -- same, but await_suspend returns `coro_queue::resume_handle_next()`
@@ -122,7 +123,10 @@ def collect (st : Nat → St) : List Nat → (Nat → St) × List Nat
       if wakeable (st c) then ((collect (upd st c St.ready) cs).1, c :: (collect (upd st c St.ready) cs).2)
       else collect st cs
 
-def handles (st : Nat → St) (cs : List Nat) (rev : Bool) : List Nat :=
+def handles (st : Nat → St) (cs : List Nat) (_rev : Bool) : List Nat := (collect st cs).2
+
+/-- as the pinned commit had it: `create_suspend_point` took the readied handles off the *back* of the ready queue -/
+def handlesAsIs (st : Nat → St) (cs : List Nat) (rev : Bool) : List Nat :=
   if rev then (collect st cs).2.reverse else (collect st cs).2
 
 def loopIds : Option Base → List Nat
